@@ -18,6 +18,10 @@
 //	    goroutines (separate: each goroutine owns its program: parse, lower and
 //	    all targets incl. a private reused spirv.Backend; shared: one module per
 //	    round, one goroutine per target), outputs compared.  Build with -race.
+//	histdrive pconst      {"id","src","data":{"ops":[..],"repeat":K,"heal":bool}}
+//	    histories of the operations that take pipeline constants on ONE module with
+//	    overrides (msl/glsl with Options.PipelineConstants, CloneModuleForOverrides +
+//	    ProcessOverrides followed by back ends, plain back ends): see pconst.go.
 //
 // Targets: spv, spvd (debug names), hlsl, msl, glsl (all entry points), dxil.
 // Observables are digests of output bytes (and of the reflection dump of the
@@ -50,7 +54,7 @@ type job = common.Job
 
 func main() {
 	common.Main(map[string]common.Mode{
-		"outputs": doOutputs, "history": doHistory, "perm": doPerm, "concurrent": doConcurrent,
+		"outputs": doOutputs, "history": doHistory, "perm": doPerm, "concurrent": doConcurrent, "pconst": doPConst,
 	})
 }
 
